@@ -40,6 +40,7 @@ Step(t, e) ==
          ELSE Viol(t0, e, IF t.backlog THEN "[K1] not everything written was delivered: messages beyond the 255-slot socket queue were dropped"
                           ELSE "not everything written was delivered to the reader although loss was bounded")
     [] e.ev = "panic" -> Viol(t0, e, "panic: " \o e.msg \o " at " \o e.loc)
+    [] e.ev = "hang" -> Viol(t0, e, "the scenario never ended: the code under test kept producing events without bound or stopped making progress (" \o e.why \o ")")
     [] OTHER -> t0
 Init == l = 1 /\ s = Init0
 Next == l <= Len(Rec) /\ s' = Step(s, Rec[l]) /\ l' = l + 1
